@@ -21,6 +21,11 @@ rm -f "$OUT"
 # force re-analysis of zkryptium only
 find "$TGT" -path '*/.fingerprint/zkryptium-*' -prune -exec rm -rf {} + 2>/dev/null || true
 find "$TGT" -path '*/.fingerprint/vharness-*' -prune -exec rm -rf {} + 2>/dev/null || true
+# ... and drop its old artefacts: every analysed tree (scratch worktrees of the self-tests have their own path) would otherwise leave
+# its own metadata files behind (tens of MB each)
+find "$TGT" -path '*/deps/*' \( -name 'libzkryptium-*' -o -name 'zkryptium-*' -o -name 'libvharness-*' -o -name 'vharness-*' \) -delete 2>/dev/null || true
+rm -rf "$TGT"/debug/incremental "$TGT"/*/debug/incremental 2>/dev/null || true
+export CARGO_INCREMENTAL=0      # one-shot analysis builds: incremental state would only pile up (one directory per analysed tree)
 export CARGO_TARGET_DIR="$TGT"
 case "$CFG" in
   prod-all)
